@@ -483,6 +483,29 @@ def run(shard, ctx):
                 ctx.count('convert_calls')
             except Exception as e:  # noqa: BLE001
                 ctx.violation('raised_outer', f'convert to hkl_vec: {type(e).__name__}: {e}', dict(mon.meta))
+            # the single-purpose graph factories are a second public route to the same vectors (kernels stay
+            # monitored underneath); from time-of-flight as well as from wavelength
+            from scippneutron.conversion.graph import tof as GT
+            da_tof = da.copy()
+            da_tof.coords['Ltotal'] = sc.norm(da.coords['incident_beam']) + sc.norm(da.coords['scattered_beam'])
+            da_tof = da_tof.rename(wavelength='tof')
+            da_tof.coords['tof'] = sc.array(dims=['tof'], values=rng.uniform(500, 50000, size=3), unit='us')
+            for start, d0 in (('wavelength', da), ('tof', da_tof)):
+                for target, fac in (('Q_vec', GT.elastic_Q_vec), ('hkl_vec', GT.elastic_hkl), ('h', GT.elastic_hkl)):
+                    mon.meta = {'family': 'graph_factory', 'factory': fac.__name__, 'start': start, 'target': target}
+                    try:
+                        r = d0.transform_coords(target, graph=fac(start)).coords[target]
+                        w = scn.convert(d0, start, target, scatter=True).coords[target]
+                    except Exception as e:  # noqa: BLE001
+                        ctx.violation('raised_outer', f'{fac.__name__}({start!r}) -> {target}: {type(e).__name__}: {e}',
+                                      dict(mon.meta))
+                        continue
+                    ctx.event('graph_factory')
+                    ctx.case(('graph_factory', fac.__name__, start, target, n))
+                    if r.unit != w.unit or r.dims != w.dims or not np.array_equal(
+                            np.asarray(r.values), np.asarray(w.values), equal_nan=True):
+                        ctx.violation('graph_factory', f'graph.tof.{fac.__name__}({start!r}) gives a different {target} '
+                                      'than convert() for the same data', dict(mon.meta))
 
 
 TECHNIQUE = ('runtime monitors (sys.monitoring) on the Q-vector / hkl kernels; long-double defining algebra '
